@@ -1,7 +1,7 @@
 /-
   C01 — set algebra is exact for every mix of value representations.
 
-  Property theorems only (helper lemmas: Arrai/C01/{Lemmas,Contracts,Ops}.lean).
+  Property theorems only (helper lemmas: Arrai/C01/{Lemmas,Contracts,Ops,Builder,With,Union}.lean).
   Part 1: the specification is finite-set algebra: every operator of `Spec` has exactly the textbook
           members and returns a canonical (strictly sorted) set, so `=` on results is set equality.
   Part 2: keyed sequences (String / Bytes / Array share one library over `List (Option α)` + offset).
@@ -11,7 +11,7 @@
   Part 4: the operators of rel/ops_set.go, proved from the contracts for every mix of representations.
   Part 5: the known-finding classes are real: the full-strength statements fail on a witness.
 -/
-import Arrai.C01.Ops
+import Arrai.C01.Union
 
 namespace Arrai.C01.Theorems
 open Arrai Arrai.C01 Arrai.FinSet KSeq
@@ -134,5 +134,336 @@ theorem diff_refines_partial (a b : Rep) (ha : a.WF) (hb : b.WF) (hadm : DiffAdm
   intro x
   simp only [FinSet.mem_diff, Rep.den, FinSet.mem_mk]
   exact w2 x
+
+/-- two descriptions with the same members denote the same canonical set -/
+theorem den_eq_of_mem (r : Rep) (l : List V) (hl : Sorted l) (h : ∀ x, x ∈ r.members ↔ x ∈ l) : r.den = l :=
+  FinSet.sorted_ext _ _ (FinSet.sorted_mk _) hl (fun x => by rw [Rep.mem_den]; exact h x)
+
+/-- `SetBuilder.Finish`: exactly the values added, well-formed (every bucket routed to its own kind) -/
+theorem finish_refines_partial (xs : List V) (hadm : FinishAdm xs) :
+    (finish xs).WF ∧ (finish xs).den = FinSet.mk xs := by
+  obtain ⟨w1, w2⟩ := finish_spec xs hadm
+  exact ⟨w1, den_eq_of_mem _ _ (FinSet.sorted_mk _) (fun x => by rw [w2, FinSet.mem_mk])⟩
+
+/-- `With` inserts exactly the given value (all nine representations) -/
+theorem with_refines_partial (r : Rep) (h : r.WF) (hn : r.Norm) (v : V) (hadm : RepWithAdm r v) :
+    ∃ r', r.with_ v = .ok r' ∧ r'.WF ∧ r'.den = FinSet.ins v r.den := by
+  obtain ⟨r', e, w, m⟩ := Rep.with_spec r h hn v hadm
+  refine ⟨r', e, w, den_eq_of_mem _ _ (FinSet.sorted_ins _ _ (FinSet.sorted_mk _)) ?_⟩
+  intro x; rw [m, FinSet.mem_ins, Rep.mem_den]
+
+/-- `Without` removes exactly the given value (all nine representations; the membership part holds
+unconditionally, well-formedness unless a byte is removed from the middle of a byte array) -/
+theorem without_refines_partial (r : Rep) (h : r.WF) (v : V) (hadm : RepWithoutAdm r v) :
+    (r.without v).WF ∧ (r.without v).den = FinSet.erase r.den v := by
+  obtain ⟨w, m⟩ := Rep.without_spec r h v hadm
+  refine ⟨w, den_eq_of_mem _ _ (FinSet.sorted_erase _ _ (FinSet.sorted_mk _)) ?_⟩
+  intro x; rw [m, FinSet.mem_erase, Rep.mem_den]
+
+theorem union_refines_partial (a b : Rep) (ha : a.WF) (hb : b.WF) (hna : a.Norm) (hnb : b.Norm)
+    (hadm : UnionAdm a b) :
+    ∃ r, union a b = .ok r ∧ r.WF ∧ r.den = FinSet.union a.den b.den := by
+  obtain ⟨r, e, w, m⟩ := union_spec a b ha hb hna hnb hadm
+  refine ⟨r, e, w, den_eq_of_mem _ _ (FinSet.sorted_union _ _ (FinSet.sorted_mk _)) ?_⟩
+  intro x; rw [m, FinSet.mem_union, Rep.mem_den, Rep.mem_den]
+
+theorem symdiff_refines_partial (a b : Rep) (ha : a.WF) (hb : b.WF) (hna : a.Norm) (hnb : b.Norm)
+    (hadm : SymdiffAdm a b) :
+    ∃ r, symdiff a b = .ok r ∧ r.WF ∧ r.den = FinSet.symdiff a.den b.den := by
+  obtain ⟨r, e, w, m⟩ := symdiff_spec a b ha hb hna hnb hadm
+  refine ⟨r, e, w, den_eq_of_mem _ _ (FinSet.sorted_symdiff _ _ (FinSet.sorted_mk _)) ?_⟩
+  intro x; rw [m, FinSet.mem_symdiff, Rep.mem_den, Rep.mem_den]
+
+/-- the subset comparisons `(<) (<=) (<>) (<>=)` (and their mirror images and negations, which the
+compiler builds from these four) are exact for every mix of representations -/
+theorem subset_family (a b : Rep) (ha : a.WF) (hb : b.WF) :
+    subsetI a b = FS.ssubset a.den b.den ∧ subsetOrEqualI a b = FinSet.subset a.den b.den ∧
+    subsetOrSupersetI a b = Spec.comparable a.den b.den ∧
+    subsetSupersetOrEqualI b a = (Spec.comparable a.den b.den || decide (a.den = b.den)) :=
+  ⟨subsetI_eq a b ha hb, subsetOrEqualI_eq a b ha hb, subsetOrSupersetI_eq a b ha hb,
+   subsetSupersetOrEqualI_eq a b ha hb⟩
+
+/-- `Where` on any representation (UnionSets filter bucket by bucket and drop emptied buckets) -/
+theorem where_rep_refines_partial (r : Rep) (h : r.WF) (f : V → Bool) (hadm : RepFilterAdm r f) :
+    (r.filter f).WF ∧ (r.filter f).den = FS.filter f r.den := by
+  obtain ⟨w, m⟩ := Rep.filter_spec r h f hadm
+  refine ⟨w, den_eq_of_mem _ _ (FS.sorted_filter f _ (FinSet.sorted_mk _)) ?_⟩
+  intro x; rw [m, FS.mem_filter, Rep.mem_den]
+
+/-- `=>`: the images are collected through the SetBuilder: the result is the image of the set -/
+theorem darrow_refines_partial (r : Rep) (f : V → V) (hadm : FinishAdm (r.members.map f)) :
+    (finish (r.members.map f)).WF ∧ (finish (r.members.map f)).den = FS.image f r.den := by
+  obtain ⟨w, e⟩ := finish_refines_partial _ hadm
+  refine ⟨w, ?_⟩
+  rw [e]
+  apply mk_congr
+  intro x
+  simp only [List.mem_map, Rep.den, FinSet.mem_mk]
+
+/-- `CanonicalSet` re-buckets a GenericSet without changing what it denotes -/
+theorem canonicalSet_refines (r : Rep) (h : r.WF) : (canonicalSet r).WF ∧ (canonicalSet r).den = r.den := by
+  obtain ⟨w, m⟩ := canonicalSet_spec r h
+  exact ⟨w, mk_congr _ _ m⟩
+
+/-- `PowerSet`: the fast paths (EmptySet, GenericSet through frozen.Powerset) -/
+theorem powerSet_refines_partial (r : Rep) (h : r.WF)
+    (hr : r = .plain .empty ∨ ∃ xs, r = .plain (.generic xs)) :
+    ∃ r', powerSet r = .ok r' ∧ r'.den = FS.powerset r.den := by
+  rcases hr with rfl | ⟨xs, rfl⟩
+  · refine ⟨_, rfl, ?_⟩
+    obtain ⟨_, w2⟩ := finish_spec [.set []] (finishAdm_single _)
+    apply den_eq_of_mem _ _ (FS.sorted_powerset _)
+    intro x
+    rw [w2]
+    simp [FS.powerset, FS.sublists, Rep.den, Rep.members, Plain.members, FinSet.mk, FinSet.ins]
+  · refine ⟨_, rfl, ?_⟩
+    apply den_eq_of_mem _ _ (FS.sorted_powerset _)
+    intro x
+    show x ∈ (fromFrozen _).members ↔ _
+    rw [fromFrozen_members]
+    have : (Rep.plain (Plain.generic xs)).den = xs := mk_of_sorted xs h.1
+    rw [this]
+    rfl
+
+/-- the full-strength statement for `PowerSet` (every representation), covered by the correspondence
+check only -/
+def powerSet_full : Prop :=
+  ∀ r : Rep, r.WF → ¬ isSuper (.set (FS.powerset r.den)) = true → ¬ isBytesGap (.set (FS.powerset r.den)) = true →
+    ∃ r', powerSet r = .ok r' ∧ r'.den = FS.powerset r.den
+
+/-- admissibility of one binary set operator on two evaluated operands -/
+def BinAdm (op : BinOp) (a b : Rep) : Prop :=
+  match op with
+  | .union => UnionAdm a b
+  | .inter => InterAdm a b
+  | .diff => DiffAdm a b
+  | .symdiff => SymdiffAdm a b
+  | _ => True
+
+/-- one operator step of the evaluator agrees with the specification: `| & &~ ~~` on two sets in any
+representations return a well-formed representation of exactly the specified set -/
+theorem binop_refines_partial (op : BinOp) (hop : op = .union ∨ op = .inter ∨ op = .diff ∨ op = .symdiff)
+    (a b : Rep) (ha : a.WF) (hb : b.WF) (hna : a.Norm) (hnb : b.Norm) (hadm : BinAdm op a b) :
+    ∃ r, Impl.binop op (.set a) (.set b) = .ok (.set r) ∧ r.WF ∧ Spec.binop op a.denV b.denV = .ok r.denV := by
+  rcases hop with rfl | rfl | rfl | rfl
+  · obtain ⟨r, e, w, d⟩ := union_refines_partial a b ha hb hna hnb hadm
+    refine ⟨r, ?_, w, ?_⟩
+    · show (union a b).map Impl.IV.set = _
+      rw [e]; rfl
+    · show Outcome.ok (V.set (FinSet.union a.den b.den)) = _
+      rw [← d]; rfl
+  · obtain ⟨w, d⟩ := inter_refines_partial a b ha hb hadm
+    refine ⟨inter a b, rfl, w, ?_⟩
+    show Outcome.ok (V.set (FinSet.inter a.den b.den)) = _
+    rw [← d]; rfl
+  · obtain ⟨w, d⟩ := diff_refines_partial a b ha hb hadm
+    refine ⟨diff a b, rfl, w, ?_⟩
+    show Outcome.ok (V.set (FinSet.diff a.den b.den)) = _
+    rw [← d]; rfl
+  · obtain ⟨r, e, w, d⟩ := symdiff_refines_partial a b ha hb hna hnb hadm
+    refine ⟨r, ?_, w, ?_⟩
+    · show (symdiff a b).map Impl.IV.set = _
+      rw [e]; rfl
+    · show Outcome.ok (V.set (FinSet.symdiff a.den b.den)) = _
+      rw [← d]; rfl
+
+/-- `a with v` / `a without v` as evaluated (the result of `without` is re-normalised with `IsTrue`) -/
+theorem with_without_step_refines_partial (a : Rep) (ha : a.WF) (hna : a.Norm) (v : Impl.IV)
+    (hw : RepWithAdm a v.toV) (hwo : RepWithoutAdm a v.toV) :
+    (∃ r, Impl.binop .with_ (.set a) v = .ok (.set r) ∧ r.WF ∧ Spec.binop .with_ a.denV v.toV = .ok r.denV) ∧
+    (∃ r, Impl.binop .without (.set a) v = .ok (.set r) ∧ r.WF ∧ Spec.binop .without a.denV v.toV = .ok r.denV) := by
+  constructor
+  · obtain ⟨r, e, w, d⟩ := with_refines_partial a ha hna v.toV hw
+    refine ⟨r, ?_, w, ?_⟩
+    · show (a.with_ v.toV).map Impl.IV.set = _
+      rw [e]; rfl
+    · show Outcome.ok (V.set (FinSet.ins v.toV a.den)) = _
+      rw [← d]; rfl
+  · obtain ⟨w, d⟩ := without_refines_partial a ha v.toV hwo
+    refine ⟨Impl.normTrue (a.without v.toV), rfl, ?_, ?_⟩
+    · unfold Impl.normTrue
+      split
+      · exact w
+      · trivial
+    · show Outcome.ok (V.set (FinSet.erase a.den v.toV)) = _
+      rw [← d]
+      unfold Impl.normTrue
+      split
+      · rfl
+      · rename_i ht
+        have hemp : (a.without v.toV).members = [] := by
+          apply Classical.byContradiction
+          intro hne
+          exact ht ((Rep.isTrue_iff _ w).2 hne)
+        show Outcome.ok (V.set (FinSet.mk (a.without v.toV).members)) =
+          Outcome.ok (V.set (FinSet.mk (Rep.plain Plain.empty).members))
+        rw [hemp]; rfl
+
+/-- one operator step of the evaluator agrees with the specification (comparison operators) -/
+theorem cmpop_refines (op : CmpOp) (a b : Rep) (ha : a.WF) (hb : b.WF)
+    (hop : op ≠ .mem ∧ op ≠ .nmem) :
+    Impl.cmpop op (.set a) (.set b) = Spec.cmpop op a.denV b.denV := by
+  obtain ⟨h1, h2, h3, h4⟩ := subset_family a b ha hb
+  obtain ⟨g1, g2, _, _⟩ := subset_family b a hb ha
+  cases op with
+  | mem => exact absurd rfl hop.1
+  | nmem => exact absurd rfl hop.2
+  | sub => show Outcome.ok (subsetI a b) = Outcome.ok (FS.ssubset a.den b.den); rw [h1]
+  | sup => show Outcome.ok (subsetI b a) = Outcome.ok (FS.ssubset b.den a.den); rw [g1]
+  | sube => show Outcome.ok (subsetOrEqualI a b) = Outcome.ok (FinSet.subset a.den b.den); rw [h2]
+  | supe => show Outcome.ok (subsetOrEqualI b a) = Outcome.ok (FinSet.subset b.den a.den); rw [g2]
+  | comp => show Outcome.ok (subsetOrSupersetI a b) = Outcome.ok (Spec.comparable a.den b.den); rw [h3]
+  | compe =>
+    show Outcome.ok (subsetSupersetOrEqualI b a) =
+      Outcome.ok (Spec.comparable a.den b.den || decide (a.den = b.den))
+    rw [h4]
+  | nsub => show Outcome.ok (!subsetI a b) = Outcome.ok (!FS.ssubset a.den b.den); rw [h1]
+  | nsup => show Outcome.ok (!subsetI b a) = Outcome.ok (!FS.ssubset b.den a.den); rw [g1]
+  | nsube => show Outcome.ok (!subsetOrEqualI a b) = Outcome.ok (!FinSet.subset a.den b.den); rw [h2]
+  | nsupe => show Outcome.ok (!subsetOrEqualI b a) = Outcome.ok (!FinSet.subset b.den a.den); rw [g2]
+  | ncomp => show Outcome.ok (!subsetOrSupersetI a b) = Outcome.ok (!Spec.comparable a.den b.den); rw [h3]
+  | ncompe =>
+    show Outcome.ok (!subsetSupersetOrEqualI b a) =
+      Outcome.ok (!(Spec.comparable a.den b.den || decide (a.den = b.den)))
+    rw [h4]
+
+/-- `x <: s` is membership -/
+theorem mem_refines (b : Rep) (hb : b.WF) (v : Impl.IV) :
+    Impl.cmpop .mem v (.set b) = Spec.cmpop .mem v.toV b.denV := by
+  show Outcome.ok (b.has v.toV) = Outcome.ok (decide (v.toV ∈ b.den))
+  congr 1
+  rw [Bool.eq_iff_iff, Rep.has_iff_den b hb]
+  simp
+
+/-- the full-strength statement for whole programs (operands produced by earlier operators), which the
+per-operator theorems above are the induction steps of; covered by the correspondence check -/
+def programs_full : Prop :=
+  ∀ e : E, classOf e = "good" → obsI (Impl.eval e) = obsV (Spec.eval e) ∨ Spec.eval e = .unspec
+
+/-! ### Part 5 — the known-finding classes are real -/
+
+/-- full-strength `With` (no admissibility hypothesis) … -/
+def with_full : Prop :=
+  ∀ (r : Rep) (v : V), r.WF → r.Norm → ∃ r', r.with_ v = .ok r' ∧ r'.WF ∧ r'.den = FinSet.ins v r.den
+
+/-- … fails: an array cannot take a second item at an occupied index (KF-superimposed) -/
+theorem with_full_false : ¬ with_full := by
+  intro h
+  obtain ⟨r', e, _⟩ := h (.plain (.arr [some (.num 1)] 0 1)) (itemV 0 (.num 2)) rfl
+    (Or.inr (by simp [Rep.members, Plain.members, kden]))
+  simp [Rep.with_, Plain.with_, asItem, itemV, pairV, arrWithItem, kget] at e
+
+/-- full-strength `Without` (well-formed result for every operand) … -/
+def without_full : Prop := ∀ (r : Rep) (v : V), r.WF → (r.without v).WF
+
+/-- … fails: removing a byte from the middle leaves a GenericSet of byte tuples (KF-bytes-holes) -/
+theorem without_full_false : ¬ without_full := by
+  intro h
+  have hw : (Rep.plain (.bytes [1, 2, 3] 0)).WF := by
+    refine ⟨by simp, ?_⟩
+    intro x hx
+    simp only [List.mem_cons, List.not_mem_nil, or_false] at hx
+    rcases hx with rfl | rfl | rfl <;> decide
+  have hwf := h _ (byteV 1 2) hw
+  have hres : (Rep.plain (.bytes [1, 2, 3] 0)).without (byteV 1 2) =
+      .plain (fromFrozen (FinSet.erase (FinSet.mk (Plain.bytes [1, 2, 3] 0).members) (byteV 1 2))) := by
+    simp [Rep.without, Plain.without, bytesWithout, asByte_byteV 1 2 (by decide), seqIndex]
+  rw [hres] at hwf
+  have hm : byteV 0 1 ∈ (fromFrozen (FinSet.erase (FinSet.mk (Plain.bytes [1, 2, 3] 0).members) (byteV 1 2))).members := by
+    rw [fromFrozen_members, FinSet.mem_erase, FinSet.mem_mk]
+    refine ⟨by simp [Plain.members, kden], ?_⟩
+    intro he
+    have := (byteV_inj he).1
+    omega
+  have hb := Plain.members_bucket (fromFrozen (FinSet.erase (FinSet.mk (Plain.bytes [1, 2, 3] 0).members) (byteV 1 2))) hwf _ hm
+  rw [fromFrozen_bucket, bucketOf_byteV 0 1 (by decide)] at hb
+  cases hb
+
+/-- full-strength `Finish` (no admissibility hypothesis) … -/
+def finish_full : Prop := ∀ xs : List V, ∀ x, x ∈ (finish xs).members ↔ x ∈ xs
+
+/-- … fails: of two chars at one index only the last one added survives (KF-superimposed) -/
+theorem finish_full_false : ¬ finish_full := by
+  intro h
+  have h1 := (h [charV 0 97, charV 0 98] (charV 0 97)).2 (by simp)
+  have hres : finish [charV 0 97, charV 0 98] = .plain (.str [some 98] 0 0) := by
+    simp [finish, groupBuckets, addToBucket, bucketOf_charV 0 97 (by decide), bucketOf_charV 0 98 (by decide),
+      finishGroups, finishBucket, fromBuckets, charPairs, asChar_charV 0 97 (by decide),
+      asChar_charV 0 98 (by decide), asString, build, minAt, maxAt, fill, kholes]
+  rw [hres] at h1
+  simp only [Rep.members, Plain.members, kden, List.map_cons, List.map_nil, List.mem_singleton] at h1
+  have := (charV_inj h1).2
+  omega
+
+/-- full-strength `Where` on a byte array … -/
+def where_full : Prop :=
+  ∀ (p : Plain) (f : V → Bool), p.WF → ∀ v, v ∈ (p.filter f).members ↔ v ∈ p.members ∧ f v = true
+
+/-- … fails: the bytes kept around a rejected one are joined by a zero byte (KF-bytes-holes) -/
+theorem where_full_false : ¬ where_full := by
+  intro h
+  have hw : (Plain.bytes [1, 2, 3] 0).WF := by
+    refine ⟨by simp, ?_⟩
+    intro x hx
+    simp only [List.mem_cons, List.not_mem_nil, or_false] at hx
+    rcases hx with rfl | rfl | rfl <;> decide
+  have h1 := (h (.bytes [1, 2, 3] 0) (fun v => !decide (v = byteV 1 2)) hw (byteV 1 0)).1
+  have hres : (Plain.bytes [1, 2, 3] 0).filter (fun v => !decide (v = byteV 1 2)) = .bytes [1, 0, 3] 0 := by
+    have e1 : byteV 0 1 ≠ byteV 1 2 := fun he => by have := (byteV_inj he).1; omega
+    have e3 : byteV 2 3 ≠ byteV 1 2 := fun he => by have := (byteV_inj he).1; omega
+    simp [Plain.filter, Plain.members, kden, e1, e3, bytePairs, asByte_byteV 0 1 (by decide),
+      asByte_byteV 2 3 (by decide), asBytes, build, minAt, maxAt, fill]
+  rw [hres] at h1
+  have := (h1 (by simp [Plain.members, kden])).1
+  simp only [Plain.members, kden, List.map_cons, List.map_nil, List.mem_cons, List.not_mem_nil, or_false] at this
+  rcases this with he | he | he <;> (have := byteV_inj he; omega)
+
+/-! ### the hypotheses of the partial theorems are satisfiable by non-trivial values -/
+
+/-- a well-formed sparse string, an admissible `with` into its hole, an admissible `without` -/
+example : (Rep.plain (.str [some 97, none, some 99] 0 1)).WF ∧ (Rep.plain (.str [some 97, none, some 99] 0 1)).Norm ∧
+    RepWithAdm (.plain (.str [some 97, none, some 99] 0 1)) (charV 1 98) ∧
+    RepWithoutAdm (.plain (.str [some 97, none, some 99] 0 1)) (charV 0 97) := by
+  refine ⟨⟨rfl, by simp [kcount], ?_⟩, Or.inr (by simp [Rep.members, Plain.members, kden]), ?_, trivial⟩
+  · intro c hc
+    simp only [List.mem_cons, Option.some.injEq, reduceCtorEq, List.not_mem_nil, or_false, false_or] at hc
+    rcases hc with rfl | rfl <;> decide
+  · intro ix c hc d hd
+    obtain ⟨he, _⟩ := (asChar_eq_some _ ix c).1 hc
+    obtain ⟨rfl, rfl⟩ := charV_inj he
+    simp [kden] at hd
+
+/-- a well-formed UnionSet of two buckets and a gap-free byte array -/
+example : (Rep.union [(.generic, .generic [.num 1, .num 2]), (.bytesByte, .bytes [1, 2] 0)]).WF ∧
+    FilterAdm (.bytes [1, 2] 0) (fun _ => true) := by
+  refine ⟨⟨⟨by simp, ?_⟩, by simp⟩, ?_⟩
+  · intro kp hm
+    simp only [List.mem_cons, List.not_mem_nil, or_false] at hm
+    rcases hm with rfl | rfl
+    · refine ⟨⟨?_, by simp, by simp, ?_⟩, by simp [Plain.members], rfl⟩
+      · apply List.pairwise_cons.2
+        refine ⟨?_, by simp⟩
+        intro x hx
+        simp only [List.mem_singleton] at hx
+        subst hx
+        decide
+      · intro x hx
+        simp only [List.mem_cons, List.not_mem_nil, or_false] at hx
+        rcases hx with rfl | rfl <;> rfl
+    · refine ⟨⟨by simp, ?_⟩, by simp [Plain.members, kden], rfl⟩
+      intro x hx
+      simp only [List.mem_cons, List.not_mem_nil, or_false] at hx
+      rcases hx with rfl | rfl <;> decide
+  · have hl : bytePairs ((Plain.bytes [1, 2] 0).members.filter (fun _ => true)) = [(0, 1), (1, 2)] := by
+      simp [Plain.members, kden, bytePairs, asByte_byteV 0 1 (by decide), asByte_byteV 1 2 (by decide)]
+    show NoGap (bytePairs ((Plain.bytes [1, 2] 0).members.filter (fun _ => true)))
+    rw [hl]
+    rintro i ⟨p, q, hp, hq, h1, h2⟩
+    simp only [List.mem_cons, List.not_mem_nil, or_false] at hp hq
+    have hi : i = 0 ∨ i = 1 := by
+      rcases hp with rfl | rfl <;> rcases hq with rfl | rfl <;> simp at h1 h2 <;> omega
+    rcases hi with rfl | rfl
+    · exact ⟨1, by simp⟩
+    · exact ⟨2, by simp⟩
 
 end Arrai.C01.Theorems
